@@ -186,6 +186,12 @@ func (x *Exec) Branch(c *smt.Term) bool {
 	if c.IsFalse() {
 		return false
 	}
+	switch x.ivDecide(c) {
+	case 1:
+		return true
+	case 0:
+		return false
+	}
 	x.specGuard("branch")
 	if len(x.decisions) >= x.lim.MaxDecisions {
 		x.abort(abBudget, "decision budget exhausted")
@@ -302,6 +308,9 @@ func (x *Exec) note(s string) {
 // Returns after assuming c.
 func (x *Exec) check(c *smt.Term, kind, msg string) {
 	if c.IsTrue() {
+		return
+	}
+	if x.ivDecide(c) == 1 {
 		return
 	}
 	x.specGuard("check")
@@ -1688,7 +1697,7 @@ func (x *Exec) call(fn *ssa.Function, args []Value, env []Value) Value {
 			switch i := ins.(type) {
 			case *ssa.If:
 				c := x.get(fr, i.Cond).(*smt.Term)
-				if x.tryMergeDiamond(fr, b, c) {
+				if x.tryMergeRegion(fr, b, c) {
 					next = fr.block
 					prev = fr.prev
 					goto nextBlock
